@@ -1256,16 +1256,18 @@ class RowStore(Sym):
         super().__init__("np.empty(n, dtype)", setitem=lambda run, i, v: self.writes.append((i, v)), length=n)
 
 
+_np_empty_prev = models.EXTERNALS.get("numpy.empty")
+
+
 @models.external("numpy.empty")
 def _np_empty(engine, run, a, k):
     if "track_data" in run.ghost:
         st = RowStore(a[0], k.get("dtype", a[1] if len(a) > 1 else None))
         run.ghost["track_data"]["store"] = st
         return st
+    if _np_empty_prev is None:
+        raise Undecided("np.empty outside the DropletTrack.data contract")
     return _np_empty_prev(engine, run, a, k)
-
-
-_np_empty_prev = models.EXTERNALS.get("numpy.empty")
 
 
 @loop(KEY_TR_DATA, 0)
